@@ -33,6 +33,7 @@ import (
 
 	"github.com/codenotary/immudb/embedded/appendable"
 	"github.com/codenotary/immudb/embedded/appendable/fileutils"
+	"github.com/codenotary/immudb/embedded/simhook"
 )
 
 var ErrorPathIsNotADirectory = errors.New("singleapp: path is not a directory")
@@ -113,6 +114,9 @@ func Open(fileName string, opts *Options) (*AppendableFile, error) {
 	if err != nil {
 		return nil, err
 	}
+	if simhook.Enabled && notExist {
+		simhook.IOCreate(fileName)
+	}
 
 	var metadata []byte
 	var compressionFormat int
@@ -160,10 +164,19 @@ func Open(fileName string, opts *Options) (*AppendableFile, error) {
 		if err != nil {
 			return nil, err
 		}
+		if simhook.Enabled {
+			hdr := make([]byte, 0, 4+len(mBs)+opts.preallocSize)
+			hdr = append(append(hdr, mLenBs...), mBs...)
+			hdr = append(hdr, make([]byte, opts.preallocSize)...)
+			simhook.IOWrite(fileName, 0, hdr)
+		}
 
 		err = f.Sync()
 		if err != nil {
 			return nil, err
+		}
+		if simhook.Enabled {
+			simhook.IOSync(fileName)
 		}
 
 		err = fileutils.SyncDir(filepath.Dir(fileName))
@@ -495,8 +508,17 @@ func (aof *AppendableFile) readAt(bs []byte, off int64) (n int, err error) {
 	// boff is the offset to employ when reading from the buffer
 	var boff int
 
+	if simhook.Enabled && off < aof.fileOffset {
+		if ferr := simhook.IOFailRead(aof.f.Name(), aof.fileBaseOffset+off, len(bs)); ferr != nil {
+			return 0, ferr
+		}
+	}
+
 	if off < aof.fileOffset {
 		n, err = aof.f.ReadAt(bs, aof.fileBaseOffset+off)
+		if simhook.Enabled && n > 0 {
+			simhook.IOCorruptRead(aof.f.Name(), aof.fileBaseOffset+off, bs[:n])
+		}
 	} else {
 		boff = int(off - aof.fileOffset)
 	}
@@ -648,7 +670,16 @@ func (aof *AppendableFile) flush() error {
 		return err
 	}
 
+	if simhook.Enabled {
+		if ferr := simhook.IOFailWrite(aof.f.Name(), aof.fileBaseOffset+aof.fileOffset, aof.wbufUnwrittenOffset-aof.wbufFlushedOffset); ferr != nil {
+			return ferr
+		}
+	}
+
 	n, err := aof.f.Write(aof.writeBuffer[aof.wbufFlushedOffset:aof.wbufUnwrittenOffset])
+	if simhook.Enabled && n > 0 {
+		simhook.IOWrite(aof.f.Name(), aof.fileBaseOffset+aof.fileOffset, aof.writeBuffer[aof.wbufFlushedOffset:aof.wbufFlushedOffset+n])
+	}
 
 	aof.fileOffset += int64(n)
 	aof.wbufFlushedOffset += n
@@ -691,6 +722,13 @@ func (aof *AppendableFile) sync() error {
 		err = aof.f.Sync()
 	} else {
 		err = fileutils.Fdatasync(aof.f)
+	}
+	if simhook.Enabled && err == nil {
+		if ferr := simhook.IOFailSync(aof.f.Name()); ferr != nil {
+			err = ferr
+		} else {
+			simhook.IOSync(aof.f.Name())
+		}
 	}
 
 	if !aof.retryableSync {
